@@ -118,10 +118,21 @@ func ExecuteRequest(ctx context.Context, req *thunderpb.ExecuteRequest, gqlSchem
 		}, nil
 	}, time.Hour, false)
 
-	<-done
+	select {
+	case <-done:
+	case <-ctx.Done():
+		// The rerunner never runs the computation if the context was already
+		// canceled, so done would never be closed.
+	}
 
+	// Stop waits for a computation that is still in flight.
 	rerunner.Stop()
-	return queryResponse, queryError
+	select {
+	case <-done:
+		return queryResponse, queryError
+	default:
+		return nil, ctx.Err()
+	}
 }
 
 func (s *Server) Execute(ctx context.Context, req *thunderpb.ExecuteRequest) (*thunderpb.ExecuteResponse, error) {
